@@ -287,15 +287,28 @@ func gridCases(run *common.Run) {
 					if n%3 == 0 {
 						q.Max = 2
 					}
-					switch n % 3 {
+					pb := "b"
+					lt4 := &hydrapb.TreasureFilter{Operator: hydrapb.Relational_LESS_THAN, BytesFieldPath: &pb, CompareValue: &hydrapb.TreasureFilter_Int64Val{Int64Val: 4}}
+					pa := "a"
+					or := func(legs ...*hydrapb.TreasureFilter) *hydrapb.FilterGroup {
+						return &hydrapb.FilterGroup{Logic: hydrapb.FilterLogic_OR, Filters: legs}
+					}
+					switch n % 7 {
 					case 0: // AND: indexed leg + residual
-						pb := "b"
-						q.F = &hydrapb.FilterGroup{Filters: []*hydrapb.TreasureFilter{eqLeg("a", "", i64(1)),
-							{Operator: hydrapb.Relational_LESS_THAN, BytesFieldPath: &pb, CompareValue: &hydrapb.TreasureFilter_Int64Val{Int64Val: 4}}}}
+						q.F = &hydrapb.FilterGroup{Filters: []*hydrapb.TreasureFilter{eqLeg("a", "", i64(1)), lt4}}
 					case 1: // single indexed leg
 						q.F = &hydrapb.FilterGroup{Filters: []*hydrapb.TreasureFilter{eqLeg("a", "", i64(1))}}
-					default: // OR-union with a label
-						q.F = &hydrapb.FilterGroup{Logic: hydrapb.FilterLogic_OR, Filters: []*hydrapb.TreasureFilter{eqLeg("a", "two", i64(2)), eqLeg("b", "", i64(0))}}
+					case 2: // OR-union with a label, legs on distinct fields, disjoint matches
+						q.F = or(eqLeg("a", "two", i64(2)), eqLeg("b", "", i64(0)))
+					case 3: // OR-union on distinct fields whose match sets overlap (records matching both legs)
+						q.F = or(eqLeg("a", "", i64(1)), eqLeg("b", "", i64(0)), eqLeg("b", "", i64(2)))
+					case 4: // OR-union on distinct fields, overlapping, two legs only, with a label
+						q.F = or(eqLeg("b", "b1", i64(1)), eqLeg("a", "", i64(2)))
+					case 5: // OR-union on one field with overlapping legs and duplicate IN values
+						q.F = or(eqLeg("a", "", i64(1)), &hydrapb.TreasureFilter{Operator: hydrapb.Relational_INT64_IN, BytesFieldPath: &pa, Int64InVals: []int64{1, 1, 2, 1}})
+					default: // AND that consumes an OR sub-group (overlapping legs on distinct fields) + residual
+						q.F = &hydrapb.FilterGroup{Filters: []*hydrapb.TreasureFilter{lt4},
+							SubGroups: []*hydrapb.FilterGroup{or(eqLeg("a", "", i64(1)), eqLeg("b", "", i64(3)))}}
 					}
 					c := runQueryCase(swamp, q, contents, "grid")
 					run.Add(c.term, c.descr, c.nontrivial)
